@@ -584,7 +584,9 @@ func randDurationC14(rng *rand.Rand) int64 {
 }
 
 var hostAtomsC14 = []string{"", "a", "example.com", "::1", "fe80::1%eth0", "1.2.3.4", "2001:db8::", "::", ":", "%", "[", "]", "[::1]", "[a]",
-	"a]b", "a[b", "ü", "\xff", " ", "0", "host:1", "[]", "][", "a%b", ".", "-", "\x00"}
+	"a]b", "a[b", "ü", "\xff", " ", "0", "host:1", "[]", "][", "a%b", ".", "-", "\x00",
+	// percent-escapes and zones that look like escapes (RFC 6874 "%25"), URL-ish hosts
+	"fe80::1%25", "fe80::1%250", "fe80::1%25eth0", "::1%2", "name%25", "%25", "fe80::%41", "a%3Ab", "::ffff:1.2.3.4%25x"}
 
 func randHostC14(rng *rand.Rand) string {
 	switch rng.IntN(5) {
@@ -593,7 +595,7 @@ func randHostC14(rng *rand.Rand) string {
 	case 2:
 		return pick(rng, hostAtomsC14...) + pick(rng, hostAtomsC14...)
 	case 3: // bracket-free, colon-heavy
-		const alpha = "ab:%.0:\xc3\xbc"
+		const alpha = "ab:%.025:\xc3\xbc"
 		n := rng.IntN(8)
 		b := make([]byte, n)
 		for i := range b {
